@@ -124,6 +124,14 @@ func buildFaultSubject(w *World, nreq int) *faultSubject {
 					}
 					routers[op.Name] = g.New(op.Name, mux.NewHosts(false, op.Name+".example.com"), extra...)
 					fs.routers = append(fs.routers, routers[op.Name])
+				case "gadd":
+					// a router built on its own, with its own recovery configuration (possibly none), attached with
+					// Group.Add: it keeps its options - the group's recovery option is not its business
+					own := append(fs.option(op.Args[0]), mux.WithInterceptor(fs.icFunc, "sim"))
+					r := NewSimRouter(env, RouterOpts{Name: op.Name, Lock: w.Opts.Lock, Trace: w.Opts.Trace}, own...)
+					g.Add(mux.NewHosts(false, op.Name+".example.com"), r)
+					routers[op.Name] = r
+					fs.routers = append(fs.routers, r)
 				case "guse":
 					g.Use(env.MWs(op.MW...)...)
 				case "use":
@@ -244,6 +252,8 @@ func genC16(r *Rng, idx int, tier string) *World {
 			op := Op{K: "gnew", Name: name}
 			if r.Pct(25) && w.Opts.Recovery != "none" && !conc {
 				op.Args = []string{pick(r, []string{"func", "status"})}
+			} else if r.Pct(20) && !conc {
+				op = Op{K: "gadd", Name: name, Args: []string{pick(r, []string{"none", "none", "func", "status"})}}
 			}
 			w.Setup = append(w.Setup, op)
 			names = append(names, name)
@@ -480,7 +490,7 @@ func execC16(w *World, st *Stats) (*Violation, RunInfo) {
 		recovery := w.Opts.Recovery
 		if name := strings.TrimSuffix(op.Req.Host, ".example.com"); name != op.Req.Host {
 			for k := range w.Setup {
-				if w.Setup[k].K == "gnew" && w.Setup[k].Name == name && len(w.Setup[k].Args) > 0 && w.Setup[k].Args[0] != "" {
+				if (w.Setup[k].K == "gnew" || w.Setup[k].K == "gadd") && w.Setup[k].Name == name && len(w.Setup[k].Args) > 0 && w.Setup[k].Args[0] != "" {
 					recovery = w.Setup[k].Args[0]
 				}
 			}
@@ -560,7 +570,7 @@ func execC16(w *World, st *Stats) (*Violation, RunInfo) {
 			if name := strings.TrimSuffix(op.Req.Host, ".example.com"); name != op.Req.Host {
 				over := false
 				for k := range w.Setup {
-					if w.Setup[k].K == "gnew" && w.Setup[k].Name == name && len(w.Setup[k].Args) > 0 && w.Setup[k].Args[0] != "" {
+					if (w.Setup[k].K == "gnew" || w.Setup[k].K == "gadd") && w.Setup[k].Name == name && len(w.Setup[k].Args) > 0 && w.Setup[k].Args[0] != "" {
 						over = true
 					}
 				}
